@@ -51,6 +51,12 @@ CLAIMED["C06"] = dict(
     note="Trusted: the per-backend symbol extractors (regular expressions over generated text, validated on feature_tests output) and the naming model transcribed from book/src/abi.md.",
     ref="DESIGN.md §2 C06")
 
+CLAIMED["C13"] = dict(
+    engine="P", technique="metamorphic + model-based property testing: generated condition formulas evaluated by an independent evaluator, compared with tool output byte-wise and through symbol extraction",
+    text="Generated formulas (depth <= 3 over *, backend names, supports= flags, not/any/all) on modules, types, impls and methods. Per backend the output must be byte-identical to the output of the program in which each formula is replaced by its truth value (`*` or attribute removed), the symbols used must equal the model's enabled set under inheritance, and nm must still show every function. A second leg checks 24k (quick) formula evaluations in-process against the evaluator with random supports tables. Exploration.",
+    note="Trusted: the evaluator (book/src/attrs.md), the run-time calibration of supports= atoms by canary methods, the `*` base case (validated by the canary), the symbol extractors.",
+    ref="DESIGN.md §2 C13")
+
 TODO_REASON = "check not built yet in this revision of /verif (planned, see DESIGN.md §2); not claimed until it is silent on the unchanged tree and kills its mutants"
 
 ALL = ["C%02d" % i for i in range(1, 18)]
